@@ -4,18 +4,18 @@ import importlib
 # property -> list of (rule module, configs it needs in quick tier)
 PROPERTY_RULES = {
     "C01": ["r_a10", "r_a9", "r_a8", "r_a2", "r_o3"],
-    "C02": ["r_a6", "r_a4", "r_a2", "r_o3", "r_e1", "r_b1"],
+    "C02": ["r_a6", "r_a4", "r_a8", "r_a2", "r_o3", "r_e1", "r_b1"],
     "C03": ["r_a2", "r_a3"],
     "C04": ["r_a8", "r_e1", "r_a6"],
     "C05": ["r_b1", "r_o3", "r_a2"],
     "C06": ["r_b1", "r_o3"],
     "C07": ["r_a12"],
-    "C08": ["r_a11", "r_o3"],
-    "C09": ["r_c4", "r_c1", "r_c5"],
+    "C08": ["r_a11", "r_o3", "r_a2", "r_a4"],
+    "C09": ["r_c4", "r_c3", "r_c1", "r_c5"],
     "C10": ["r_c2", "r_c1", "r_e1"],
     "C11": ["r_c2", "r_c1", "r_a6", "r_c5", "r_c4", "r_e1"],
     "C12": ["r_c4", "r_e1"],
-    "C13": ["r_e4", "r_a6", "r_e1"],
+    "C13": ["r_e4", "r_a6", "r_c3", "r_e1"],
     "C14": ["r_d1"],
     "C15": ["r_d2", "r_d3"],
     "C16": ["r_e1"],
